@@ -54,6 +54,21 @@ fn parse_literal_sign<'a>(input: ParserInput<'a>) -> InternalParserResult<'a, bo
     }
 }
 
+/// Apply the sign of a literal operand to its magnitude, or fail if the value does not fit in
+/// an `i64`.
+fn signed_integer_literal<'a>(
+    input: ParserInput<'a>,
+    negative: bool,
+    magnitude: u64,
+) -> Result<i64, InternalParseError<'a>> {
+    if negative {
+        0i64.checked_sub_unsigned(magnitude)
+    } else {
+        i64::try_from(magnitude).ok()
+    }
+    .ok_or_else(|| InternalParseError::from_kind(input, ParserErrorKind::UnsupportedPrecision))
+}
+
 /// Parse the operand of an arithmetic instruction, which may be a literal integer, literal real
 /// number, or memory reference.
 pub(crate) fn parse_arithmetic_operand<'a>(
@@ -67,11 +82,10 @@ pub(crate) fn parse_arithmetic_operand<'a>(
                 ArithmeticOperand::LiteralReal(sign * v)
             },
         ),
-        map(
+        map_res(
             tuple((parse_literal_sign, token!(Integer(v)))),
             |(negative, v)| {
-                let sign = if negative { -1 } else { 1 };
-                ArithmeticOperand::LiteralInteger(sign * (v as i64))
+                signed_integer_literal(input, negative, v).map(ArithmeticOperand::LiteralInteger)
             },
         ),
         map(parse_memory_reference, ArithmeticOperand::MemoryReference),
@@ -91,11 +105,10 @@ pub(crate) fn parse_comparison_operand<'a>(
                 ComparisonOperand::LiteralReal(sign * v)
             },
         ),
-        map(
+        map_res(
             tuple((parse_literal_sign, token!(Integer(v)))),
             |(negative, v)| {
-                let sign = if negative { -1 } else { 1 };
-                ComparisonOperand::LiteralInteger(sign * (v as i64))
+                signed_integer_literal(input, negative, v).map(ComparisonOperand::LiteralInteger)
             },
         ),
         map(parse_memory_reference, ComparisonOperand::MemoryReference),
@@ -107,11 +120,10 @@ pub(crate) fn parse_binary_logic_operand<'a>(
     input: ParserInput<'a>,
 ) -> InternalParserResult<'a, BinaryOperand> {
     alt((
-        map(
+        map_res(
             tuple((parse_literal_sign, token!(Integer(v)))),
             |(negative, v)| {
-                let sign = if negative { -1 } else { 1 };
-                BinaryOperand::LiteralInteger(sign * (v as i64))
+                signed_integer_literal(input, negative, v).map(BinaryOperand::LiteralInteger)
             },
         ),
         map(parse_memory_reference, BinaryOperand::MemoryReference),
